@@ -1,6 +1,7 @@
 package verifsim
 
 import (
+	goat "github.com/avos-io/goat"
 	"bytes"
 	"context"
 	"fmt"
@@ -286,7 +287,20 @@ func execC12(e *Env, pp any) {
 		a.Write(rctx, &Rpc{Id: probeJ, Header: hj})
 		e.Pt("raw.probe")
 		a.Write(rctx, &Rpc{Id: probeJ, Header: hj, Body: bytesBody([]byte("only")), Trailer: &goatorepo.Trailer{}})
+		// finally the peer resets whatever the hostile sequence may have left open
+		// (a reset for an id the server does not know is ignored)
+		for _, id := range []uint64{1, 2, ^uint64(0) - 1, ^uint64(0) - 2} {
+			e.Pt("raw.probe")
+			a.Write(rctx, &Rpc{Id: id, Header: &goatorepo.RequestHeader{Method: methodNames[KBidi], Source: "raw", Destination: ServerID}, Reset_: &goatorepo.Reset{Type: "RST_STREAM"}})
+		}
 	})
+	// contexts registered under the connection's contexts once it is set up and idle
+	e.NoAutoAdvance = true
+	baseCtx := -1
+	if rr := e.Drive(func() bool { return len(e.W.TrackedObjects("server.handler")) > 0 }); rr == CondMet {
+		baseCtx = c12ServerCtx(e, sr)
+	}
+	e.NoAutoAdvance = false
 	reason := e.Settle()
 	e.Note("nontrivial")
 	if p.Enum && len(p.Seq) <= 3 {
@@ -398,6 +412,21 @@ func execC12(e *Env, pp any) {
 			e.Note("reset.for.unknown")
 		}
 	}
+	// every stream was finished or reset by now: nothing stays registered, and no
+	// context created for an envelope of this peer is still hooked to the connection
+	// (e.g. the context of an open that was refused)
+	if !sr.Returned {
+		for _, h := range e.W.TrackedObjects("server.handler") {
+			if n := goat.VerifServerStreams(h); n > 0 {
+				e.Violate(prop, "stream-left-registered", "server.handler", "%d stream(s) still registered after the peer finished or reset every id it used (sequence %v)", n, seqString(p.Seq))
+			}
+		}
+		if now := c12ServerCtx(e, sr); baseCtx >= 0 && now > baseCtx {
+			e.Violate("C14", "context-leak", "server.refused-open", "%d contexts are registered under the connection's contexts after the peer finished or reset every id it used, %d when the connection was idle at the start (sequence %v)", now, baseCtx, seqString(p.Seq))
+		} else if baseCtx >= 0 {
+			e.Note("c12.ctx-children-back-to-baseline")
+		}
+	}
 	// every response is addressed back to the raw peer and echoes a received id
 	for _, r := range resp {
 		if r.GetHeader() != nil && r.GetHeader().GetDestination() != "raw" {
@@ -459,6 +488,21 @@ func genC12At(idx uint64, g *rand.Rand, tier string) any {
 }
 
 func init() {
-	Register(&Family{Name: "c12.hostile-client", ShrinkKeys: []string{"seq"}, Props: []string{"C12"}, New: func() any { return &C12Params{} }, Gen: genC12, GenAt: genC12At, Exec: execC12,
+	Register(&Family{Name: "c12.hostile-client", ShrinkKeys: []string{"seq"}, Props: []string{"C12", "C14"}, New: func() any { return &C12Params{} }, Gen: genC12, GenAt: genC12At, Exec: execC12,
 		Faulty: true, FaultKinds: []string{"peer.malformed"}})
+}
+
+// c12ServerCtx: contexts registered under the context handed to Serve and under the
+// connection contexts of the server handlers (see ctxDescendants).
+func c12ServerCtx(e *Env, sr *ServeRec) int {
+	n := 0
+	if d := ctxDescendants(sr.Ctx); d >= 0 {
+		n += d
+	}
+	for _, h := range e.W.TrackedObjects("server.handler") {
+		if d := ctxDescendants(goat.VerifServerCtx(h)); d >= 0 {
+			n += d
+		}
+	}
+	return n
 }
